@@ -251,7 +251,7 @@ def gen_specs(tier, seed):
         ["yield", ["attr:real", V("z")], "y", ["attr:real", V("<t>")], "final", True],
     ]
     ncur = len(specs)
-    nrand = 600 if tier == "quick" else 6000
+    nrand = 600 if tier == "quick" else 60000
     g = exprdsl.Gen(rng, vars_num=["a", "b", "c", "d"], vars_bool=["<cond>c", "<cond>d"],
                     consts=(0, 1, 2, -1), funcs=FUNCS, arrays=("v", "w"), kwnames=("k", "m"),
                     ops=["+", "*", "/", "**", "cmp", "not", "and", "or", "if", "min", "max", "call", "callkw", "sub", "attr"])
